@@ -14,6 +14,7 @@ import (
 
 	measurev1 "github.com/apache/skywalking-banyandb/api/proto/banyandb/measure/v1"
 	streamv1 "github.com/apache/skywalking-banyandb/api/proto/banyandb/stream/v1"
+	"github.com/apache/skywalking-banyandb/banyand/internal/verif/sidxsim"
 	"github.com/apache/skywalking-banyandb/banyand/internal/verif/simmeta"
 	"github.com/apache/skywalking-banyandb/banyand/internal/verif/simnode"
 	"github.com/apache/skywalking-banyandb/banyand/internal/verif/wl"
@@ -25,6 +26,7 @@ func TestSim(t *testing.T) {
 	simcore.Main(t, "C03", []simcore.Scenario{
 		{Name: "measure-maint", Weight: 3, Run: runMeasure},
 		{Name: "stream-maint", Weight: 2, Run: runStream},
+		{Name: "sidx-steps", Weight: 2, Run: sidxsim.Run("maintenance-invisible", false)},
 	})
 }
 
